@@ -509,26 +509,38 @@ template<class K, class V> struct Case : public Look {
    ~Case() { ts.DeleteIterators(); delete tab[0]; delete tab[1]; }
 };
 
-// ---- the auto-sorting variants.  Oracle: contents equal to a std::map model after every operation; iteration sorted by
-// key (OrderedKeysHashtable) or by value (OrderedValuesHashtable) whenever the documentation promises it (auto-sort on and
-// not disturbed by a manual move; after Sort(); after SetAutoSortEnabled(true,true); after CopyFrom of a non-empty table).
-// The order among equal sort keys is unspecified: the observed order is adopted and only used to tell the iterator oracle
-// whether surviving entries changed their relative order (= a reordering ran).
+// ---- the auto-sorting variants.  Model: a std::map (contents) + seq = the exact iteration order as (entry id, key).
+// Order oracle, per operation:
+//  * operations that are not allowed to reorder (Remove*, EnsureSize, ShrinkToFit, growth at capacity inside Put, swap there
+//    and back, iterator traffic, Put of a NEW key) must leave the relative order of the surviving entries exactly as it was --
+//    whether or not that order is the sorted one (auto-sort off, manual Move*);
+//  * a new key goes to the tail while auto-sort is off (exact); to a place that keeps the table sorted while auto-sort is on
+//    and the table is sorted; anywhere (unspecified) while auto-sort is on but the table has been unsorted by documented means;
+//  * manual MoveToFront/Back/Before/Behind/Position: exact, as for a plain table (documented to unsort until Sort());
+//  * an update of an existing key / Reposition() may move that one entry only (whether an update repositions while auto-sort
+//    is off is unspecified: counted);   * Sort(), SetAutoSortEnabled(true,true), CopyFrom of a non-empty table: any sorted order.
+// Sortedness is demanded while auto-sort is on and the order has not been disturbed by documented means (or happens to be
+// sorted again), and after the documented re-sorting calls.  The order among equal sort keys is unspecified.
 template<class TT, class K, class V, bool byValue> struct OrdCase : public Look {
-   typedef HashtableIterator<K, V> IT; typedef ConstHashtableIterator<K, V> CIT;
+   typedef HashtableIterator<K, V> IT; typedef ConstHashtableIterator<K, V> CIT; typedef std::vector<std::pair<uint64_t, uint32> > Seq;
    struct MV { uint32 v; uint64_t id; };
-   TT * t; std::map<uint32, MV> om; std::vector<std::pair<uint64_t, uint32> > seq; TrkSet<K, V> ts; bool sortedExpected, autoOn; uint32 ks, vr, maxPop;
+   TT * t; std::map<uint32, MV> om; Seq seq; TrkSet<K, V> ts; bool sortedExpected, autoOn; uint32 ks, vr, maxPop;
    OrdCase() : t(new TT), sortedExpected(true), autoOn(true), maxPop(0) { ts.look = this; }
    ~OrdCase() { ts.DeleteIterators(); delete t; }
    virtual bool Find(int, uint32 kid, uint32 & v, uint64_t & id) { typename std::map<uint32, MV>::iterator f = om.find(kid); if (f == om.end()) return false; v = f->second.v; id = f->second.id; return true; }
    static K KK(uint32 k) { return KT<K>::Make(k); } static V VV(uint32 v) { return VT<V>::Make(v); }
-   void mPut(uint32 k, uint32 v) { typename std::map<uint32, MV>::iterator f = om.find(k); ts.NoteMutation(0); if (f == om.end()) { MV m; m.v = v; m.id = ++g_nextId; om[k] = m; } else { if (!sortedExpected || (byValue && f->second.v != v)) ts.NoteReorder(0); /* an update repositions the entry: always in a by-value table, and relative to whatever neighbours it has in an unsorted one */ f->second.v = v; } }
+   void mPut(uint32 k, uint32 v) { typename std::map<uint32, MV>::iterator f = om.find(k); ts.NoteMutation(0); if (f == om.end()) { MV m; m.v = v; m.id = ++g_nextId; om[k] = m; } else f->second.v = v; }
    void mErase(uint32 k) { typename std::map<uint32, MV>::iterator f = om.find(k); if (f == om.end()) return; uint64_t id = f->second.id; om.erase(f); ts.NoteRemoved(0, id); }
    void mClear(bool detach) { for (typename std::map<uint32, MV>::iterator i = om.begin(); i != om.end(); ++i) ts.NoteRemoved(0, i->second.id); om.clear(); if (detach) ts.NoteDetach(0); }
-   void Observe(const TT & h, bool deep, bool track = true)
+   uint32 SortKey(uint32 kid) { return byValue ? om[kid].v : kid; }
+   bool ActuallySorted() { for (size_t i = 1; i < seq.size(); i++) if (SortKey(seq[i].second) < SortKey(seq[i - 1].second)) return false; return true; }
+   static std::string Show(const Seq & s) { std::string r; for (size_t i = 0; i < s.size() && i < 40; i++) r += vh::fmt("%u ", s[i].second); if (s.size() > 40) r += "..."; return r; }
+   // movable: -1 = any order is acceptable (a documented re-sort), 0 = nothing may move, else the one key that may have moved;
+   // newLast: entries that are new must be at the tail;   exact: the complete expected key sequence, if the operation defines it
+   void Observe(const TT & h, bool deep, bool track = true, long movable = -1, bool newLast = false, const std::vector<uint32> * exact = NULL)
    {
       if (caseBad) return; vh::stat("audits");
-      std::vector<std::pair<uint64_t, uint32> > ns; uint32 prev = 0;
+      Seq ns; uint32 prev = 0;
       for (CIT it(h, HTIT_FLAG_NOREGISTER); it.HasData(); it++) {
          uint32 kid = KT<K>::Id(it.GetKey()), val = VT<V>::Val(it.GetValue()); typename std::map<uint32, MV>::iterator f = om.find(kid);
          if (f == om.end() || f->second.v != val) { Fail("", vh::fmt("iteration position %zu holds key %u value %u, model %s", ns.size(), kid, val, f == om.end() ? "lacks the key" : vh::fmt("has value %u", f->second.v).c_str())); return; }
@@ -536,51 +548,68 @@ template<class TT, class K, class V, bool byValue> struct OrdCase : public Look 
          prev = sk; ns.push_back(std::make_pair(f->second.id, kid)); if (ns.size() > om.size()) break;
       }
       if (ns.size() != om.size() || h.GetNumItems() != om.size()) { Fail("", vh::fmt("iteration yields %zu entries, GetNumItems() %u, model %zu", ns.size(), h.GetNumItems(), om.size())); return; }
-      if (sortedExpected) vh::stat("audits_sortedness_required");
-      std::vector<std::pair<uint64_t, uint32> > keepSeq; if (!track) keepSeq = seq;
-      if (track) { std::unordered_set<uint64_t> inNew, inOld; for (size_t i = 0; i < ns.size(); i++) inNew.insert(ns[i].first); for (size_t i = 0; i < seq.size(); i++) inOld.insert(seq[i].first);
-        std::vector<uint64_t> o, n; for (size_t i = 0; i < seq.size(); i++) if (inNew.count(seq[i].first)) o.push_back(seq[i].first); for (size_t i = 0; i < ns.size(); i++) if (inOld.count(ns[i].first)) n.push_back(ns[i].first);
-        if (o != n) { ts.NoteReorder(0); vh::stat("observed_reorderings"); } }
+      if (sortedExpected) vh::stat("audits_sortedness_required"); if (track && !autoOn) vh::stat("ordered_audits_while_autosort_off");
+      if (track) {
+         std::unordered_set<uint64_t> inNew, inOld; for (size_t i = 0; i < ns.size(); i++) inNew.insert(ns[i].first); for (size_t i = 0; i < seq.size(); i++) inOld.insert(seq[i].first);
+         if (exact) { bool same = exact->size() == ns.size(); for (size_t i = 0; same && i < ns.size(); i++) if ((*exact)[i] != ns[i].second) same = false; if (!same) { std::string w; for (size_t i = 0; i < exact->size() && i < 40; i++) w += vh::fmt("%u ", (*exact)[i]); Fail("ordered|order-differs-from-the-operations-performed", "iteration order is [" + Show(ns) + "], the operation defines [" + w + "] (before: [" + Show(seq) + "])"); return; } vh::stat("ordered_exact_order_checks"); }
+         else if (movable != -1) { std::vector<uint64_t> o, n; for (size_t i = 0; i < seq.size(); i++) if (inNew.count(seq[i].first) && (long)seq[i].second != movable) o.push_back(seq[i].first); for (size_t i = 0; i < ns.size(); i++) if (inOld.count(ns[i].first) && (long)ns[i].second != movable) n.push_back(ns[i].first);
+            if (o != n) { Fail("ordered|order-changed-by-non-reordering-operation", vh::fmt("auto-sort %s; ", autoOn ? "on" : "off") + "the surviving entries changed their relative order: before [" + Show(seq) + "], after [" + Show(ns) + "]" + (movable ? vh::fmt(" (key %ld was free to move)", movable) : std::string())); return; } vh::stat("ordered_relative_order_checks"); }
+         if (newLast) { bool sawNew = false; for (size_t i = 0; i < ns.size(); i++) { bool isNew = !inOld.count(ns[i].first); if (sawNew && !isNew) { Fail("ordered|order-differs-from-the-operations-performed", "auto-sort is off, yet a new key was not appended at the tail: before [" + Show(seq) + "], after [" + Show(ns) + "]"); return; } if (isNew) sawNew = true; } }
+      }
+      Seq keepSeq; if (!track) keepSeq = seq;
       seq.swap(ns);
-      struct Restore { std::vector<std::pair<uint64_t, uint32> > & s, & k; bool on; Restore(std::vector<std::pair<uint64_t, uint32> > & s_, std::vector<std::pair<uint64_t, uint32> > & k_, bool o) : s(s_), k(k_), on(o) {} ~Restore() { if (on) s.swap(k); } } restore(seq, keepSeq, !track);
+      struct Restore { Seq & s, & k; bool on; Restore(Seq & s_, Seq & k_, bool o) : s(s_), k(k_), on(o) {} ~Restore() { if (on) s.swap(k); } } restore(seq, keepSeq, !track);
       if (deep) {
          size_t i = seq.size(); for (CIT it(h, HTIT_FLAG_BACKWARDS); it.HasData(); it++) { if (i == 0 || KT<K>::Id(it.GetKey()) != seq[--i].second) { Fail("", "backward iteration is not the reverse of forward iteration"); return; } } if (i != 0) { Fail("", "backward iteration too short"); return; }
          for (typename std::map<uint32, MV>::iterator f = om.begin(); f != om.end(); ++f) { const V * p = h.Get(KK(f->first)); if (!p || VT<V>::Val(*p) != f->second.v) { Fail("", vh::fmt("lookup of key %u", f->first)); return; } }
          for (int j = 0; j < 4; j++) { uint32 k = 1 + R(ks + 5); if (!om.count(k) && h.ContainsKey(KK(k))) { Fail("", "absent key found"); return; } }
-         if (seq.size()) { if (KT<K>::Id(*h.GetFirstKey()) != seq.front().second || KT<K>::Id(*h.GetLastKey()) != seq.back().second) { Fail("", "GetFirstKey/GetLastKey"); return; } }
+         if (seq.size()) { if (KT<K>::Id(*h.GetFirstKey()) != seq.front().second || KT<K>::Id(*h.GetLastKey()) != seq.back().second) { Fail("", "GetFirstKey/GetLastKey"); return; } uint32 p = R((uint32)seq.size()); if (h.IndexOfKey(KK(seq[p].second)) != (int32)p || KT<K>::Id(h.GetKeyAtWithDefault(p)) != seq[p].second) { Fail("", "IndexOfKey/GetKeyAt disagree with the iteration order"); return; } }
       }
    }
+   std::vector<uint32> Kids() const { std::vector<uint32> r; for (size_t i = 0; i < seq.size(); i++) r.push_back(seq[i].second); return r; }
    void Run(uint64_t cs)
    {
       const long live0 = Own::live; ks = R(4) == 0 ? 700 : (R(3) == 0 ? 20 : 80); vr = byValue ? 30 : 100000; uint32 nops = ks > 100 ? 250 + R(250) : 300 + R(600); uint32 maxIters = 1 + R(4); long middleInserts = 0; bool calm = false;
       for (uint32 step = 0; step < nops && !caseBad; step++) {
          uint32 o = R(100), k = 1 + R(ks), v = R(vr); status_t r; const uint64_t idBefore = g_nextId; if (R(3) == 0 && om.size()) { typename std::map<uint32, MV>::iterator f = om.lower_bound(k); if (f != om.end()) k = f->first; }
          if (step % 60 == 0) calm = (R(2) == 0);
-         if (calm) { if ((o >= 55 && o < 61) || (o >= 64 && o < 69) || (o >= 72 && o < 76)) o = 84 + R(16); else if (o < 38 && om.count(k) && (byValue || !sortedExpected)) { for (int q = 0; q < 6 && om.count(k); q++) k = 1 + R(ks); if (om.count(k)) o = 84 + R(16); } }
-         const bool hk = om.count(k) > 0;
-         if (o < 38) { OP("Put %u=%u", k, v); r = t->Put(KK(k), VV(v)); if (r.IsError()) Fail("", "failed"); if (!autoOn && (!hk || (byValue && om[k].v != v))) sortedExpected = false; mPut(k, v); }
-         else if (o < 50) { OP("Remove %u", k); r = t->Remove(KK(k)); if (r.IsOK() != hk) Fail("", "status"); mErase(k); }
-         else if (o < 55) { bool first = R(2); OP(first ? "RemoveFirst" : "RemoveLast"); K ok = KK(0); r = first ? t->RemoveFirst(ok) : t->RemoveLast(ok); if (r.IsOK() != (om.size() > 0)) Fail("", "status"); if (om.size()) { uint32 want = first ? seq.front().second : seq.back().second; if (KT<K>::Id(ok) != want) Fail("", vh::fmt("removed key %u, the %s key was %u", KT<K>::Id(ok), first ? "first" : "last", want)); mErase(want); } }
-         else if (o < 61) { OP("modify+Reposition %u=%u", k, v); V * pv = t->Get(KK(k)); if ((pv != NULL) != hk) Fail("", "Get"); if (pv) { if (byValue && om[k].v != v) ts.NoteReorder(0); *pv = VV(v); om[k].v = v; ts.NoteMutation(0); } r = t->Reposition(KK(k)); if (r.IsOK() != hk) Fail("", "Reposition status"); }
-         else if (o < 64) { OP("copy/assign/swap"); TT c(*t); if (!(c == *t) || (c != *t)) Fail("", "copy differs"); TT d; (void)d.Put(KK(1 + R(ks)), VV(R(vr))); d = *t; if (!d.IsEqualTo(*t, false)) Fail("", "assigned copy differs"); { bool se = sortedExpected; if (om.size()) sortedExpected = true; /* CopyFrom sorts */ Observe(c, true, false); Observe(d, true, false); sortedExpected = se; }
-            TT tmp; tmp.SwapContents(*t); if (t->GetNumItems() != 0) Fail("", "swapped-out table not empty"); ts.Touch(); t->SwapContents(tmp); uint32 nk = 1 + R(ks); (void)c.Put(KK(nk), VV(R(vr))); bool se2 = sortedExpected; if (se2) { uint32 prev = 0, n = 0; for (CIT it(c, HTIT_FLAG_NOREGISTER); it.HasData(); it++, n++) { uint32 sk = byValue ? VT<V>::Val(it.GetValue()) : KT<K>::Id(it.GetKey()); if (n && sk < prev) { Fail("ordered|not-sorted", "a Put into a copy of a sorted table is misplaced"); break; } prev = sk; } } }
-         else if (o < 67) { OP("autosort off / bulk put / on"); t->SetAutoSortEnabled(false, R(2)); if (t->GetAutoSortEnabled()) Fail("", "GetAutoSortEnabled"); autoOn = false; uint32 n = 1 + R(5); for (uint32 i = 0; i < n; i++) { uint32 kk = 1 + R(ks), vv = R(vr); if (!om.count(kk)) sortedExpected = false; if (t->Put(KK(kk), VV(vv)).IsError()) Fail("", "Put failed"); if (byValue && om.count(kk) && om[kk].v != vv) sortedExpected = false; mPut(kk, vv); }
-            if (R(4)) { bool now = R(4) != 0; t->SetAutoSortEnabled(true, now); autoOn = true; if (now) { sortedExpected = true; ts.NoteReorder(0); } } }
-         else if (o < 69) { OP("Sort"); t->Sort(); sortedExpected = true; ts.NoteReorder(0); if (!autoOn && R(2)) { t->SetAutoSortEnabled(true, false); autoOn = true; } }
-         else if (o < 72) { bool sh = R(2); uint32 want = (uint32)om.size() + R(40); OP("EnsureSize %u shrink %d", want, (int)sh); if (t->EnsureSize(want, sh).IsError()) Fail("", "failed"); if (R(3) == 0) (void)t->ShrinkToFit(R(3)); ts.NoteMutation(0); }
-         else if (o < 74) { if (!hk) continue; bool front = R(2); OP(front ? "manual MoveToFront %u" : "manual MoveToBack %u", k); r = front ? t->MoveToFront(KK(k)) : t->MoveToBack(KK(k)); if (r.IsError()) Fail("", "status"); sortedExpected = false; ts.NoteReorder(0); }   // documented to unsort until Sort()
-         else if (o < 76) { OP("CopyFrom/Put(table) on top"); TT other; uint32 n = R(6); std::vector<std::pair<uint32, uint32> > add; for (uint32 i = 0; i < n; i++) { uint32 kk = 1 + R(ks), vv = R(vr); (void)other.Put(KK(kk), VV(vv)); add.push_back(std::make_pair(kk, vv)); } r = R(2) ? t->CopyFrom(other, false) : t->Put(other); if (r.IsError()) Fail("", "failed"); for (size_t i = 0; i < add.size(); i++) mPut(add[i].first, add[i].second); if (n) { sortedExpected = true; ts.NoteReorder(0); } }
-         else if (o < 77) { if (R(4)) continue; bool rel = R(2); OP(rel ? "ClearRelease" : "Clear"); t->Clear(rel); mClear(true); }
-         else if (o < 78) { if (R(6)) continue; OP("destroy+recreate"); delete t; mClear(true); ts.Touch(); t = new TT; sortedExpected = true; autoOn = true; }
+         bool hk = om.count(k) > 0;
+         if (calm) { if ((o >= 51 && o < 56) || (o >= 62 && o < 64) || (o >= 69 && o < 75) || (o >= 59 && o < 62 && !autoOn)) o = 84 + R(16); else if (o < 34 && hk) { for (int q = 0; q < 6 && om.count(k); q++) k = 1 + R(ks); hk = om.count(k) > 0; if (hk) o = 84 + R(16); } }
+         const uint32 slots0 = t->GetNumAllocatedItemSlots(); const bool unsorted0 = !ActuallySorted(); bool resorted = false, disturbed = false;
+         long movable = 0; bool newLast = false; std::vector<uint32> exactV; const std::vector<uint32> * exact = NULL;
+         if (o < 34) { OP("Put %u=%u (auto-sort %s)", k, v, autoOn ? "on" : "off"); r = t->Put(KK(k), VV(v)); if (r.IsError()) Fail("", "failed");
+            if (hk) { if (!autoOn) { movable = k; vh::stat("unspecified_update_while_autosort_off_may_reposition"); } else if (!sortedExpected || (byValue && om[k].v != v)) movable = k; } else newLast = !autoOn;
+            if (!autoOn) disturbed = true; mPut(k, v); }
+         else if (o < 46) { OP("Remove %u", k); r = t->Remove(KK(k)); if (r.IsOK() != hk) Fail("", "status"); mErase(k); }
+         else if (o < 51) { bool first = R(2); OP(first ? "RemoveFirst" : "RemoveLast"); K ok = KK(0); r = first ? t->RemoveFirst(ok) : t->RemoveLast(ok); if (r.IsOK() != (om.size() > 0)) Fail("", "status"); if (om.size()) { uint32 want = first ? seq.front().second : seq.back().second; if (KT<K>::Id(ok) != want) Fail("", vh::fmt("removed key %u, the %s key was %u", KT<K>::Id(ok), first ? "first" : "last", want)); mErase(want); } }
+         else if (o < 56) { OP("modify+Reposition %u=%u", k, v); V * pv = t->Get(KK(k)); if ((pv != NULL) != hk) Fail("", "Get"); if (pv) { *pv = VV(v); om[k].v = v; ts.NoteMutation(0); movable = k; } r = t->Reposition(KK(k)); if (r.IsOK() != hk) Fail("", "Reposition status"); }
+         else if (o < 59) { OP("copy/assign/swap"); TT c(*t); if (!(c == *t) || (c != *t)) Fail("", "copy differs"); TT d; (void)d.Put(KK(1 + R(ks)), VV(R(vr))); d = *t; if (!d.IsEqualTo(*t, false)) Fail("", "assigned copy differs"); { bool se = sortedExpected, ao = autoOn; autoOn = true; if (om.size()) sortedExpected = true; /* CopyFrom sorts */ Observe(c, true, false); Observe(d, true, false); sortedExpected = se; autoOn = ao; }
+            TT tmp; tmp.SwapContents(*t); if (t->GetNumItems() != 0) Fail("", "swapped-out table not empty"); ts.Touch(); t->SwapContents(tmp); uint32 nk = 1 + R(ks); (void)c.Put(KK(nk), VV(R(vr))); if (om.size()) { uint32 prev = 0, n = 0; for (CIT it(c, HTIT_FLAG_NOREGISTER); it.HasData(); it++, n++) { uint32 sk = byValue ? VT<V>::Val(it.GetValue()) : KT<K>::Id(it.GetKey()); if (n && sk < prev) { Fail("ordered|not-sorted", "a Put into a copy (copies are sorted by CopyFrom) is misplaced"); break; } prev = sk; } } }
+         else if (o < 62) { if (autoOn) { if (R(3)) continue; OP("SetAutoSortEnabled(false)"); t->SetAutoSortEnabled(false, R(2)); if (t->GetAutoSortEnabled()) Fail("", "GetAutoSortEnabled"); autoOn = false; } else { if (R(2)) continue; bool now = R(4) != 0; OP("SetAutoSortEnabled(true,%d)", (int)now); t->SetAutoSortEnabled(true, now); if (!t->GetAutoSortEnabled()) Fail("", "GetAutoSortEnabled"); autoOn = true; if (now) { resorted = true; movable = -1; } } }
+         else if (o < 64) { OP("Sort"); t->Sort(); resorted = true; movable = -1; }
+         else if (o < 69) { bool sh = R(2); uint32 want = (uint32)om.size() + R(40); if (R(3) == 0) { uint32 ex = R(3); OP("ShrinkToFit %u (items %zu slots %u)", ex, om.size(), slots0); if (t->ShrinkToFit(ex).IsError()) Fail("", "failed"); } else { OP("EnsureSize %u shrink %d (items %zu slots %u)", want, (int)sh, om.size(), slots0); if (t->EnsureSize(want, sh).IsError()) Fail("", "failed"); } ts.NoteMutation(0); }
+         else if (o < 73) { if (!hk && seq.size()) { k = seq[R((uint32)seq.size())].second; hk = true; } uint32 k2 = seq.size() ? seq[R((uint32)seq.size())].second : 0; int st = R(5); uint32 pos = R((uint32)seq.size() + 2); static const char * nm[5] = {"MoveToFront", "MoveToBack", "MoveToBefore", "MoveToBehind", "MoveToPosition"};   // documented to unsort until Sort()
+            OP("manual %s %u (anchor %u, pos %u)", nm[st], k, k2, pos); r = st == 0 ? t->MoveToFront(KK(k)) : st == 1 ? t->MoveToBack(KK(k)) : st == 2 ? t->MoveToBefore(KK(k), KK(k2)) : st == 3 ? t->MoveToBehind(KK(k), KK(k2)) : t->MoveToPosition(KK(k), pos);
+            bool ok = hk && ((st != 2 && st != 3) || (k2 != k && om.count(k2))); if (r.IsOK() != ok) Fail("", vh::fmt("status %s, expected success %d", r(), (int)ok)); exactV = Kids();
+            if (ok) { exactV.erase(std::find(exactV.begin(), exactV.end(), k)); size_t at = st == 0 ? 0 : st == 1 ? exactV.size() : st == 4 ? std::min<size_t>(pos, exactV.size()) : (size_t)(std::find(exactV.begin(), exactV.end(), k2) - exactV.begin()) + (st == 3 ? 1 : 0); exactV.insert(exactV.begin() + at, k); ts.NoteReorder(0); disturbed = true; }
+            exact = &exactV; }
+         else if (o < 75) { OP("CopyFrom/Put(table) on top"); TT other; uint32 n = R(6); std::vector<std::pair<uint32, uint32> > add; for (uint32 i = 0; i < n; i++) { uint32 kk = 1 + R(ks), vv = R(vr); (void)other.Put(KK(kk), VV(vv)); add.push_back(std::make_pair(kk, vv)); } r = R(2) ? t->CopyFrom(other, false) : t->Put(other); if (r.IsError()) Fail("", "failed"); for (size_t i = 0; i < add.size(); i++) mPut(add[i].first, add[i].second); if (n) { resorted = true; movable = -1; } }
+         else if (o < 76) { if (R(4)) continue; bool rel = R(2); OP(rel ? "ClearRelease" : "Clear"); t->Clear(rel); mClear(true); }
+         else if (o < 77) { if (R(6)) continue; OP("destroy+recreate"); delete t; mClear(true); ts.Touch(); t = new TT; sortedExpected = true; autoOn = true; }
          else if (o < 84) { if (ts.v.size() >= maxIters) continue; bool back = R(2); uint32 flags = back ? HTIT_FLAG_BACKWARDS : 0; std::vector<uint64_t> ahead; uint32 expect = 0; IT * it;
             if (R(3) == 0 && seq.size()) { size_t p = R((uint32)seq.size()); uint32 sk = seq[p].second; OP("NewIterAt %u %s", sk, back ? "backward" : "forward"); it = new IT(t->GetIteratorAt(KK(sk), flags)); expect = sk; if (!back) for (size_t i = p; i < seq.size(); i++) ahead.push_back(seq[i].first); else for (size_t i = p + 1; i-- > 0; ) ahead.push_back(seq[i].first); }
             else { OP("NewIter %s", back ? "backward" : "forward"); it = new IT(*t, flags); if (seq.size()) { expect = back ? seq.back().second : seq.front().second; if (!back) for (size_t i = 0; i < seq.size(); i++) ahead.push_back(seq[i].first); else for (size_t i = seq.size(); i-- > 0; ) ahead.push_back(seq[i].first); } }
             ts.Begin(it, back, 0, ahead, expect); }
          else { if (ts.v.empty()) continue; size_t i = R((uint32)ts.v.size()); uint32 steps = om.size() > 60 ? 1 + R((uint32)om.size() / 4) : 1 + R(3); OP("Advance iter%zu x%u", i, steps); ts.Advance(i, steps); }
+         if (movable != 0) ts.NoteReorder(0);   // an operation that is allowed to move entries ran: (b)/(c) do not apply to the traversals in progress
+         if (resorted) sortedExpected = true; const bool se = sortedExpected; if (disturbed || movable > 0) sortedExpected = se && !disturbed && !unsorted0;   // an operation that unsorts by documented means is judged leniently; settled below
+         Observe(*t, R(6) == 0, true, movable, newLast, exact);
+         if (!caseBad && !sortedExpected) sortedExpected = ActuallySorted();   // sortedness is due again as soon as the order happens to be sorted: every operation that does not unsort by documented means must then keep it
+         if (!caseBad && t->GetNumAllocatedItemSlots() != slots0) { vh::stat("ordered_reallocs"); if (unsorted0 && seq.size() >= 2) { vh::stat("ordered_reallocs_while_unsorted"); if (ts.v.size()) vh::stat("ordered_reallocs_while_unsorted_with_live_iterators"); } }
          if (!caseBad && !sortedExpected) vh::stat("steps_while_unsorted_by_documented_cause");
-         Observe(*t, R(6) == 0); if (R(4) == 0) ts.Touch();
+         if (R(4) == 0) ts.Touch();
          if (om.size() > maxPop) maxPop = (uint32)om.size();
-         if (!caseBad && seq.size() >= 3 && opname.compare(0, 3, "Put") == 0) { for (size_t i = 1; i + 1 < seq.size(); i++) if (g_nextId == idBefore + 1 && seq[i].first == g_nextId) { middleInserts++; vh::stat("ordered_inserts_in_the_middle"); break; } }
+         if (!caseBad && seq.size() >= 3 && g_nextId == idBefore + 1 && autoOn) { for (size_t i = 1; i + 1 < seq.size(); i++) if (seq[i].first == g_nextId) { middleInserts++; vh::stat("ordered_inserts_in_the_middle"); break; } }
       }
       long trav = ts.completed;
       ts.DeleteIterators();
